@@ -298,6 +298,29 @@ def trace_values(log, names):
     return vals
 
 
+def simple_cbmc(ctx, src, name, unwind, defs=(), witness=True, timeout=600, arch='sse_t1', tag=None, incs=(), witness_defs=('-DWITNESS',)):
+    """Compile cbmc/<src> against the repo, run CBMC, turn failed properties into violations; plus the must-fail twin."""
+    h = os.path.join(VERIF, 'cbmc', src)
+    tag = tag or (src.replace('.c', '') + ''.join(d.replace('-D', '_').replace('=', '') for d in defs if d.startswith('-D')))
+    tag = re.sub(r'[^A-Za-z0-9_]', '_', tag)[:80]
+    gb = os.path.join(ctx.scratch, tag + '.gb')
+    gotocc(ctx, h, gb, defs=list(defs), arch=arch, incs=incs)
+    res, fails, log = cbmc(ctx, gb, name, unwind=unwind, timeout=timeout)
+    if res == 'violated':
+        from tools.trace_summary import summarise
+        summ = summarise(log)
+        for fid, desc in fails:
+            v = summ.get(fid, {})
+            small = {k: x for k, x in v.items() if len(k) < 40 and len(x) < 60 and '.' not in k and '[' not in k}
+            ctx.violation('%s:%s' % (tag, fid.split('.')[-2] + '.' + fid.split('.')[-1]),
+                          '%s: %s | %s (the CBMC trace over the real unit is the replay)' % (name, desc, ', '.join('%s=%s' % kv for kv in list(small.items())[:14])), [log, h])
+    if witness:
+        gbw = os.path.join(ctx.scratch, tag + '_w.gb')
+        gotocc(ctx, h, gbw, defs=list(defs) + list(witness_defs), arch=arch, incs=incs)
+        cbmc(ctx, gbw, 'WITNESS ' + name, unwind=unwind, timeout=timeout, expect='violated', trace=False)
+    return res
+
+
 def pool_map(fn, items, workers=None):
     """Run fn over items in a thread pool (work is in subprocesses); preserves order; exceptions -> Inconclusive entries."""
     workers = workers or NCPU
